@@ -43,7 +43,9 @@ def parse_jaqal_file(
     if import_path is None:
         import_path = Path(filename).parent
 
-    with open(filename) as fd:
+    # (no newline translation: the lexer sees the same characters as
+    # when the text is given as a string)
+    with open(filename, newline="") as fd:
         return parse_jaqal_string(
             fd.read(),
             override_dict=override_dict,
@@ -170,7 +172,7 @@ def parse_jaqal_file_header(filename, return_usepulses=False):
 
     """
 
-    with open(filename, "r") as fd:
+    with open(filename, "r", newline="") as fd:
         return parse_jaqal_string_header(fd.read(), return_usepulses=return_usepulses)
 
 
